@@ -21,7 +21,11 @@ import (
 )
 
 func (dec *Decoder) readUnsafeBytes() []byte {
-	bytes := dec.UnsafeNext(dec.ReadInt())
+	bytes, safe := dec.next(dec.ReadInt())
+	if !safe && dec.head == dec.tail {
+		// the closing quote is not buffered yet: skipping it refills the buffer that bytes aliases
+		bytes = append([]byte(nil), bytes...)
+	}
 	dec.Skip()
 	return bytes
 }
